@@ -84,9 +84,15 @@ func (c10) Gen(r *sim.Rand, c *sim.Case, tier string) {
 	if c.Cfg["foreign"] == 0 && r.Chance(0.25) {
 		// the document becomes a template with an image placeholder; renders get different pictures
 		ops = append(ops, sim.Op{K: "para", S: []sim.Str{"{{#image pic}}"}})
+		shared := btoiP(r.Chance(0.35)) // a mail merge: one data object with one logo for both renders
+		first := []int{r.Intn(3), r.Range(2, 30), r.Range(2, 30), 555000}
 		for d := 1; d <= 2; d++ {
-			data := &world.TData{Vars: map[string]any{"name": "N"}, Images: map[string][]int{"pic": {r.Intn(3), r.Range(2, 30), r.Range(2, 30), 555000 + d}}}
-			ops = append(ops, sim.Op{K: "tpl.render", D: d, I: []int{0, 1, 0}, S: []sim.Str{sim.Str(data.JSON())}})
+			pic := []int{r.Intn(3), r.Range(2, 30), r.Range(2, 30), 555000 + d}
+			if shared == 1 {
+				pic = first
+			}
+			data := &world.TData{Vars: map[string]any{"name": fmt.Sprintf("N%d", d)}, Images: map[string][]int{"pic": pic}}
+			ops = append(ops, sim.Op{K: "tpl.render", D: d, I: []int{0, 1, 0, shared}, S: []sim.Str{sim.Str(data.JSON())}})
 		}
 		for d := 2; d >= 1; d-- {
 			f := r.Intn(3)
